@@ -182,7 +182,7 @@ func runC04(c *Check, a *Analysis) {
 			if !ok {
 				continue
 			}
-			if call, isC := k.v.(*ssa.Call); isC && calleeName(call) == "(*Server).readRequestHeader" && k.c == "nil" {
+			if call, isC := k.v.(*ssa.Call); isC && (calleeName(call) == "(*Server).readRequestHeader" || calleeName(call) == "invoke ServerCodec.ReadRequestHeader") && k.c == "nil" {
 				if eq {
 					cut[edge{b, b.Succs[1]}] = true
 				} else {
